@@ -409,6 +409,8 @@ var ttlRules = []ttlRule{
 	{name: "max6h bound+5h", max: 6 * time.Hour, bound: "+5h"},
 	{name: "role not_after +90m", na: "+90m", max: time.Hour},
 	{name: "ttl2h/max2h permit", ttl: 2 * time.Hour, max: 2 * time.Hour, bound: "permit", nbb: "permit"},
+	// max_ttl BELOW the mount default and no role ttl: the effective ttl is the clamped one
+	{name: "max20m ttl-limited", max: 20 * time.Minute, bound: "ttl-limited"},
 }
 
 func stamp(base time.Time, rel string) string {
@@ -575,7 +577,7 @@ func TestVerifC15(t *testing.T) {
 	// ---- L: lifetime ---------------------------------------------------------
 	reqLife := [][3]string{ // ttl, not_after, not_before
 		{"", "", ""}, {"10m", "", ""}, {"150m", "", ""}, {"210m", "", ""}, {"7h", "", ""}, {"100h", "", ""},
-		{"", "+20m", ""}, {"", "+100m", ""}, {"", "+5h", ""}, {"", "+7h", ""}, {"", "+1000h", ""}, {"", "-1h", ""}, {"10m", "+20m", ""},
+		{"", "+20m", ""}, {"", "+40m", ""}, {"", "+100m", ""}, {"", "+5h", ""}, {"", "+7h", ""}, {"", "+1000h", ""}, {"", "-1h", ""}, {"10m", "+20m", ""},
 		{"", "", "-10m"}, {"", "", "-2h"}, {"10m", "", "-10m"}, {"", "+20m", "-2h"}, {"", "", "+30m"},
 	}
 	endpoints := []string{"issue", "sign", "sign-verbatim", "sign-verbatim-norole", "sign-intermediate"}
